@@ -15,10 +15,47 @@ class C04(SchedProp):
     rule = ('random scheduler histories as for C01 with cancel requests placed between any two steps of the loop; '
             'non-trivial = >= 2 tasks held simultaneously and >= 1 task waited')
 
+    # GPU shares that are no multiples of 1/64, sized to fill the GPUs of the idle pilot EXACTLY (10 ranks x 0.1 on
+    # one GPU, ...): the model counts shares in 1/64 and cannot follow the placement, so the correspondence bit is
+    # not judged; the clauses are: the model's rounded request fits the idle pilot => the real scheduler must not
+    # fail it and an idle pilot must start it
+    FILL = [(0.1, 10), (1.0 / 3, 3), (0.3, 3), (0.7, 1), (0.15, 6), (0.25, 4), (0.5, 2)]
+
+    def cases(self, rng, tier):
+        for c in super().cases(rng, tier):
+            yield c
+        n = 40 if tier == 'quick' else 600
+        for _ in range(n):
+            f, per_gpu = rng.choice(self.FILL)
+            nn, gpn = rng.choice([1, 1, 2]), rng.choice([1, 2])
+            cfg = {'cpn': 32, 'gpn': gpn, 'lfs': 0, 'mem': 0, 'scattered': True}
+            nodes = [{'cores': [0] * 32, 'gpus': [0] * gpn} for _ in range(nn)]
+            full = per_gpu * gpn * nn
+            ranks = full if rng.random() < 0.7 else max(1, full - rng.randint(0, 2))
+
+            def rq(u, r, g, gf=None):
+                d = {'uid': u, 'ranks': r, 'cpr': 1, 'gpr': g, 'lfs': 0, 'mem': 0, 'rpn': 0, 'prio': 0,
+                     'colo': None, 'excl': False, 'env': None, 'slots': None}
+                if gf is not None:
+                    d['gpr_f'] = gf
+                return d
+            b = rq(2, ranks, max(1, round(f * 64)), f)
+            if rng.random() < 0.5:
+                ops = [['arrive', [b]], ['iter'], ['iter'], ['unsched', [2]], ['iter'],
+                       ['arrive', [dict(b, uid=3)]], ['iter'], ['iter']]
+            else:
+                a = rq(1, gpn * nn, 64)                # a blocker holding every GPU: b has to wait, then fits
+                ops = [['arrive', [a]], ['iter'], ['arrive', [b]], ['iter'], ['unsched', [1]], ['iter'], ['iter'],
+                       ['unsched', [2]], ['iter']]
+            yield {'kind': 'sched', 'cfg': cfg, 'nodes': nodes, 'ops': ops, 'disciplined': True,
+                   'names': 'unique', 'float_shares': True}
+
     def coq_row(self, case, obs):
         # an exception that escapes _schedule_tasks ends the scheduler thread: every task still queued or
         # waiting is lost.  Judged on the implementation alone.
         row = super().coq_row(case, obs)
+        if case.get('float_shares'):
+            row = '(true :: tl %s)' % row
         return '(%s ++ [%s])' % (row, 'false' if obs.get('died') else 'true')
 
 
